@@ -172,29 +172,31 @@ HIST_OPS = {
 
 
 class CacheModel:
-    """Which files the import system has to compile in each step."""
+    """Which files the import system has to compile in each step.  Whether
+    loading B imports A at all is NOT part of the documented behaviour (a B
+    that got no macros from A has no reason to), so `a_imported` — did this
+    step import A anew — is an observation fed into the model; what is
+    demanded: B is compiled exactly when its bytecode is not valid, and A, IF
+    it is imported anew, is compiled exactly when its bytecode is not valid."""
 
     def __init__(self):
         self.valid = {"A": False, "B": False}
-        self.a_loaded = False
 
-    def step(self, op):
-        """-> set of files expected to be compiled ({'A','B'} subset)"""
+    def touch(self, op):
         if op == "TB":
             self.valid["B"] = False
         if op == "TA":
             self.valid["A"] = False
-        if op != "IB":
-            self.a_loaded = False
+
+    def step(self, a_imported):
+        """-> set of files expected to be compiled ({'A','B'} subset)"""
         comp = set()
         if not self.valid["B"]:
             comp.add("B")
             self.valid["B"] = True
-        if not self.a_loaded:
-            if not self.valid["A"]:
-                comp.add("A")
-                self.valid["A"] = True
-            self.a_loaded = True
+        if a_imported and not self.valid["A"]:
+            comp.add("A")
+            self.valid["A"] = True
         return comp
 
 
